@@ -331,8 +331,9 @@ def _run(case, cfg, v, reg, shapes, msgpack, w):
                 for rec in inflight_burst.get((p, 'recs'), []):
                     rec['racy'] = True
                 for key in inflight_burst.get((p, 'sdisc'), []):
-                    expected_rx[p].remove(key)
-                    optional_rx[p].append(key)
+                    if key in expected_rx[p]:
+                        expected_rx[p].remove(key)
+                        optional_rx[p].append(key)
                 w.rec.count('fault.sever_in_burst')
             peers[p].sever()
             conn[p] = {}
